@@ -467,4 +467,12 @@ def r7(F, R):
     c17.r4(F, R)
 
 
-RULES = [("R1", r1, ["default", "all"]), ("R2", r2, ["zoo:default"]), ("R3", r3, ["zoo:default"]), ("R4", r4, ["zoo:default"]), ("R5", r5, ["zoo:default"]), ("R6", r6, ["default", "all"]), ("R7", r7, ["default", "all"])]
+def r8_entry(F, R):
+    """"`World::collection()` contains them all" and it is what the default pipeline runs with: `World::cucumber()` registers `Self::collection()` (= C01.R11)."""
+    if "cucumber" not in F.crates:
+        return
+    from . import c01
+    c01.r11(F, R)
+
+
+RULES = [("R1", r1, ["default", "all"]), ("R2", r2, ["zoo:default"]), ("R3", r3, ["zoo:default"]), ("R4", r4, ["zoo:default"]), ("R5", r5, ["zoo:default"]), ("R6", r6, ["default", "all"]), ("R7", r7, ["default", "all"]), ("R8", r8_entry, ["default", "all"])]
